@@ -189,6 +189,13 @@ def fcgiStdinEof {σ : Type} (R : RecReader σ) (r : FcgiReq) (st : σ) (out : L
     if h2.type != Gen.fcgi_stdin || h2.contentLength != 0 then (out ++ [.aborted .violation false false], none, st)
     else (out, some r, st)
 
+/-- the tail of `params_record_expected` once the PARAMS stream ended: `parse_pairs`, `CONTENT_LENGTH` -/
+def fcgiAfterParams {σ : Type} (R : RecReader σ) (reqId : Nat) (keep : Bool) (pbody : Bytes) (st : σ) (out : List Outcome) :
+    List Outcome × Option FcgiReq × σ :=
+  let env := Env.empty.addAll (fcgiPairs true (pbody.length + 1) pbody []).2
+  let r : FcgiReq := { env := env, requestId := reqId, keep := keep, cl := fcgiOwnContentLength env }
+  if r.cl == 0 then fcgiStdinEof R r st out else (out, some r, st)
+
 /-- `on_start_request` after a BEGIN_REQUEST for the responder role was accepted: PARAMS records,
 `parse_pairs`, `CONTENT_LENGTH` -/
 def fcgiAfterBegin {σ : Type} (R : RecReader σ) (fuel : Nat) (reqId : Nat) (keep : Bool) (st : σ) (out : List Outcome) :
@@ -199,11 +206,7 @@ def fcgiAfterBegin {σ : Type} (R : RecReader σ) (fuel : Nat) (reqId : Nat) (ke
   | (.got h1 body1, st) =>
     match fcgiParams R fuel h1 body1 reqId st with
     | (.error o, st) => (out ++ [o], none, st)
-    | (.ok pbody, st) =>
-      let env := Env.empty.addAll (fcgiPairs true (pbody.length + 1) pbody []).2
-      let cl := fcgiOwnContentLength env
-      let r : FcgiReq := { env := env, requestId := reqId, keep := keep, cl := cl }
-      if cl == 0 then fcgiStdinEof R r st out else (out, some r, st)
+    | (.ok pbody, st) => fcgiAfterParams R reqId keep pbody st out
 
 /-- answer to `FCGI_GET_VALUES`: `none` = malformed pairs (protocol violation) -/
 def fcgiGetValuesReply (concurrency : Bytes) (body : Bytes) : Option Bytes :=
